@@ -11,14 +11,47 @@ import (
 	"fmt"
 	"go/ast"
 	"go/format"
+	"go/token"
 	"go/types"
 	"os"
 
 	"golang.org/x/tools/go/packages"
 )
 
+// flip rewrites `if c { A } else { B }` into `if !(c) { B } else { A }` and
+// swaps the operands of == and != (behaviour-preserving; operands here have no
+// side effects that depend on order of evaluation in this code base's guards).
+func flip(file *ast.File) int {
+	n := 0
+	ast.Inspect(file, func(x ast.Node) bool {
+		switch v := x.(type) {
+		case *ast.IfStmt:
+			if eb, ok := v.Else.(*ast.BlockStmt); ok && v.Init == nil {
+				v.Cond = &ast.UnaryExpr{Op: token.NOT, X: &ast.ParenExpr{X: v.Cond}}
+				v.Body, v.Else = eb, v.Body
+				n++
+			}
+		case *ast.BinaryExpr:
+			if v.Op == token.EQL || v.Op == token.NEQ {
+				_, xc := v.X.(*ast.CallExpr)
+				_, yc := v.Y.(*ast.CallExpr)
+				if !xc && !yc {
+					v.X, v.Y = v.Y, v.X
+					n++
+				}
+			}
+		}
+		return true
+	})
+	return n
+}
+
 func main() {
 	dir := os.Args[1]
+	mode := "rename"
+	if len(os.Args) > 2 {
+		mode = os.Args[2]
+	}
 	cfg := &packages.Config{Mode: packages.NeedName | packages.NeedFiles | packages.NeedCompiledGoFiles | packages.NeedSyntax | packages.NeedTypes | packages.NeedTypesInfo | packages.NeedImports | packages.NeedDeps, Dir: dir,
 		Env: append(os.Environ(), "GOFLAGS=-mod=mod", "GOPROXY=off", "GOSUMDB=off", "GOTOOLCHAIN=local", "GOWORK=off")}
 	pkgs, err := packages.Load(cfg, "./...")
@@ -31,6 +64,21 @@ func main() {
 		for i, file := range pk.Syntax {
 			path := pk.CompiledGoFiles[i]
 			changed := false
+			if mode == "flip" {
+				if k := flip(file); k > 0 {
+					n += k
+					var buf bytes.Buffer
+					if err := format.Node(&buf, pk.Fset, file); err != nil {
+						fmt.Fprintln(os.Stderr, path, err)
+						os.Exit(2)
+					}
+					if err := os.WriteFile(path, buf.Bytes(), 0o644); err != nil {
+						fmt.Fprintln(os.Stderr, err)
+						os.Exit(2)
+					}
+				}
+				continue
+			}
 			// the symbolic variable of a type switch has no object of its own at
 			// its declaration (one implicit object per clause)
 			ast.Inspect(file, func(x ast.Node) bool {
